@@ -12,6 +12,8 @@ pub enum Doc {
     Match(String, Vec<(String, Doc)>),
     /// `head (fun … => body)` — a primitive applied to a function (loops)
     Lam(String, String, Box<Doc>),
+    /// `(doc : Exec _ _ T)` — the value type spelled out (needed when no branch yields a value)
+    Typed(Box<Doc>, String),
 }
 
 #[derive(Clone, Debug)]
@@ -71,6 +73,18 @@ impl Doc {
             Doc::Lam(head, lam, body) => {
                 format!("{} ({} => {})", head, lam, body.render(ind))
             }
+            Doc::Typed(d, t) => format!("({} : Exec _ _ {})", d.render(ind), t),
+        }
+    }
+    /// does every branch leave the enclosing construct (`return` / `Err` / panic) instead of yielding a value?
+    pub fn all_leaves_diverge(&self) -> bool {
+        match self {
+            Doc::Atom(s) => s.starts_with("Exec.ret ") || s.starts_with("Exec.err ") || s.starts_with("Exec.panic "),
+            Doc::Do(_, fin) => fin.all_leaves_diverge(),
+            Doc::If(_, a, b) => a.all_leaves_diverge() && b.all_leaves_diverge(),
+            Doc::Match(_, arms) => arms.iter().all(|(_, d)| d.all_leaves_diverge()),
+            Doc::Lam(_, _, _) => false,
+            Doc::Typed(d, _) => d.all_leaves_diverge(),
         }
     }
 }
